@@ -204,6 +204,20 @@ theorem literal_path_patterns (path : Str) (h : ∀ c ∈ path, c ≠ '{' ∧ c 
 
 /-! ### the retention block -/
 
+/-- **The filter of the retention block admits regular files only** – for every file type a
+directory entry can have (links followed): not directories, not FIFOs, sockets or device nodes, not
+dangling links.  (The filter expression is the generated one.) -/
+theorem filter_is_regular (k : Kind) : Gen.retentionFilter k = true ↔ k = .regular := by
+  cases k <;> decide
+
+/-- what the shape `os.path.exists(f) and not os.path.isdir(f)` would admit besides regular files:
+exactly FIFOs, sockets and device nodes – the refutation of that shape, and which entries the
+directory population must contain to expose it -/
+theorem exists_not_dir_admits_special (k : Kind) :
+    ((k.pathExists && !k.isdir) = true ∧ k ≠ .regular) ↔
+      (k = .fifo ∨ k = .socket ∨ k = .charDevice ∨ k = .blockDevice) := by
+  cases k <;> decide
+
 /-- only regular files that some pattern selects are handed to the policy, each at most as often
 as it occurs in the directory (once) -/
 theorem only_regular_files (ps : List Str) (entries : List Entry) :
@@ -213,7 +227,7 @@ theorem only_regular_files (ps : List Str) (entries : List Entry) :
   refine ⟨?_, List.filter_sublist⟩
   intro e he
   rw [List.mem_filter, Bool.and_eq_true, List.any_eq_true] at he
-  exact ⟨he.1, he.2.2, he.2.1⟩
+  exact ⟨he.1, by simpa [Entry.isFile] using (filter_is_regular e.kind).mp he.2.2, he.2.1⟩
 
 /-- a callable policy receives exactly the selected regular files, each once (no duplicates when
 the directory has none) -/
@@ -225,9 +239,11 @@ theorem callable_gets_each_family_file_once (ps : List Str) (entries : List Entr
   refine ⟨hnd.filter _, ?_⟩
   intro e
   rw [List.mem_filter, Bool.and_eq_true, List.any_eq_true]
+  have hk : Gen.retentionFilter e.kind = true ↔ e.isFile = true := by
+    rw [filter_is_regular]; simp [Entry.isFile]
   constructor
-  · exact fun he => ⟨he.1, he.2.2, he.2.1⟩
-  · exact fun he => ⟨he.1, he.2.2, he.2.1⟩
+  · exact fun he => ⟨he.1, hk.mp he.2.2, he.2.1⟩
+  · exact fun he => ⟨he.1, he.2.2, hk.mpr he.2.1⟩
 
 theorem retentionCount_sublist (logs : List Entry) (n : Int) :
     ∀ e ∈ retentionCount logs n, e ∈ logs := by
@@ -433,9 +449,9 @@ example : familyB "a[b]*.log".toList "a[b]*.2020.log.gz".toList = some true := b
 example : familyB "a[b]*.log".toList "abb.log".toList = some false := by decide
 example : familyB "logs/{time}.log".toList "logs/2020.1.log".toList = some true := by decide
 example : familyB "logs/{time}.log".toList "logs/sub/x.log".toList = some false := by decide
-example : (retentionCount [⟨"a".toList, true, 5⟩, ⟨"b".toList, true, 7⟩, ⟨"c".toList, true, 5⟩] 1).map (·.name)
+example : (retentionCount [⟨"a".toList, .regular, 5⟩, ⟨"b".toList, .regular, 7⟩, ⟨"c".toList, .regular, 5⟩] 1).map (·.name)
     = ["a".toList, "c".toList] := by decide
-example : (retentionAge [⟨"a".toList, true, 5⟩, ⟨"b".toList, true, 7⟩] 10 5).map (·.name) = ["a".toList] := by decide
+example : (retentionAge [⟨"a".toList, .regular, 5⟩, ⟨"b".toList, .regular, 7⟩] 10 5).map (·.name) = ["a".toList] := by decide
 example : terminate ⟨true, true, true, false, true⟩ true = [.close, .rename, .retention, .create] := by decide
 example : terminate ⟨true, true, true, false, true⟩ false = [.close] := by decide
 
@@ -444,7 +460,7 @@ example : Dur.parseDuration "2.9 s".toList = .ok (some 2900000) := by rfl
 example : Dur.parseDuration "900 ms".toList = .ok (some 900000) := by rfl
 /-- a file aged 2.1 s survives `retention="2 s 700 ms"`, one aged 3.5 s does not -/
 example : (retentionConfigured "a.log".toList (.str "2 s 700 ms".toList) 10000000
-      [⟨"a.log.1".toList, true, 10000000 - 2100000⟩, ⟨"a.log.2".toList, true, 10000000 - 3500000⟩]).map
+      [⟨"a.log.1".toList, .regular, 10000000 - 2100000⟩, ⟨"a.log.2".toList, .regular, 10000000 - 3500000⟩]).map
       (·.map (·.name)) = .ok ["a.log.2".toList] := by rfl
 
 end C10
